@@ -18,7 +18,7 @@ L = 'yui_matrix::dense::lll::'
 
 
 def sk(t):
-    return re.sub(r'#\d+\.\d+', '', show(t, -1000))
+    return re.sub(r'#(?:i\d+:)?\d+\.\d+', '', show(t, -1000))
 
 
 def run(facts, rep):
